@@ -226,29 +226,7 @@ func runC02(w *World, r *Report) {
 			return ok && isNilConst(ret.Results[1])
 		}, avoid: func(in ssa.Instruction) bool { return isCallTo(in, rb) }}.exists()
 		r.Check(!skip, "C02.skip-report", "calculateBranch: reportBranch before every successful return", cb.Pos(), "no nil-error return skips reportBranch", "branch outcomes are not always reported (unselected targets keep waiting forever / run when they should be skipped): "+wit)
-		// pruning of the skipped set (a target selected by ANY branch of the node is not skipped) happens only
-		// after every branch has been evaluated: from a delete(skipped, selected) no branch evaluation is reachable
-		var dels []ssa.Instruction
-		instrs(cb, func(in ssa.Instruction) {
-			if isBuiltin(in, "delete") {
-				dels = append(dels, in)
-			}
-		})
-		isBranchEval := func(in ssa.Instruction) bool {
-			c, ok := in.(*ssa.Call)
-			if !ok || c.Call.IsInvoke() || staticCallee(c) != nil {
-				return false
-			}
-			f, _ := loadedField(c.Call.Value)
-			return f != nil && (f.Name() == "invoke" || f.Name() == "collect")
-		}
-		okPrune := len(dels) > 0
-		for _, d := range dels {
-			if again, _ := (pathQuery{fn: cb, from: d, goal: isBranchEval}).exists(); again {
-				okPrune = false
-			}
-		}
-		r.Check(okPrune, "C02.skip-report", "calculateBranch: skipped set pruned after all branches were evaluated", cb.Pos(), "no branch evaluation follows the pruning", "the skipped set is pruned while branches are still being evaluated: a target selected by an earlier branch and discarded by a later one stays skipped (order-dependent)")
+		branchPruneCheck(w, r, "C02.skip-report")
 	}
 	{
 		// reportBranch: work-list loop re-reads len(nKeys) where nKeys grows inside the loop, over c.successors
@@ -366,7 +344,10 @@ func runC02(w *World, r *Report) {
 					return
 				}
 				// miss arm returns an error and reaches no report call
-				reach, _ := pathFromBlock(pathQuery{fn: fn, goal: func(i ssa.Instruction) bool { n := invokeName(i); return n == "reportValues" || n == "reportDependencies" }}, iff.Block().Succs[1])
+				reach, _ := pathFromBlock(pathQuery{fn: fn, goal: func(i ssa.Instruction) bool {
+					n := invokeName(i)
+					return n == "reportValues" || n == "reportDependencies"
+				}}, iff.Block().Succs[1])
 				if !reach {
 					okk = true
 				}
@@ -466,4 +447,34 @@ func derivesFromFieldLookup(v ssa.Value, name string, d int) bool {
 		return ok
 	}
 	return false
+}
+
+// branchPruneCheck: calculateBranch removes the targets selected by any branch from the skipped set only after
+// every branch of the node has been evaluated (a node that is both selected — it is sent a value / stream copy —
+// and marked skipped never consumes what it was sent).
+func branchPruneCheck(w *World, r *Report, rule string) {
+	cb := w.Fn("compose", "runner.calculateBranch")
+	// pruning of the skipped set (a target selected by ANY branch of the node is not skipped) happens only
+	// after every branch has been evaluated: from a delete(skipped, selected) no branch evaluation is reachable
+	var dels []ssa.Instruction
+	instrs(cb, func(in ssa.Instruction) {
+		if isBuiltin(in, "delete") {
+			dels = append(dels, in)
+		}
+	})
+	isBranchEval := func(in ssa.Instruction) bool {
+		c, ok := in.(*ssa.Call)
+		if !ok || c.Call.IsInvoke() || staticCallee(c) != nil {
+			return false
+		}
+		f, _ := loadedField(c.Call.Value)
+		return f != nil && (f.Name() == "invoke" || f.Name() == "collect")
+	}
+	okPrune := len(dels) > 0
+	for _, d := range dels {
+		if again, _ := (pathQuery{fn: cb, from: d, goal: isBranchEval}).exists(); again {
+			okPrune = false
+		}
+	}
+	r.Check(okPrune, rule, "calculateBranch: skipped set pruned after all branches were evaluated", cb.Pos(), "no branch evaluation follows the pruning", "the skipped set is pruned while branches are still being evaluated: a target selected by an earlier branch and discarded by a later one stays skipped (order-dependent)")
 }
